@@ -105,6 +105,22 @@ def implDataPackets (impl : List String) : List String :=
       if chunks.any (fun c => c.startsWith "DATA:" || c.startsWith "IDATA:") then some (" ".intercalate (len :: chunks)) else none
     | _ => none
 
+/-- the FORWARD-TSN / I-FORWARD-TSN tokens of the implementation's gather result (as `vChunkSummary` prints them) -/
+def implFwdTokens (impl : List String) : List String :=
+  ((impl.dropWhile (· != "|")).drop 1).filter fun t => t.startsWith "FWD:" || t.startsWith "IFWD:"
+
+def sortBy {α : Type} (lt : α → α → Bool) (l : List α) : List α := (l.toArray.qsort lt).toList
+
+/-- the model's FORWARD-TSN rendered like the harness does (streams sorted by identifier; I-FORWARD-TSN: ordered before unordered) -/
+def fwdStr : Sender.Fwd → String
+  | .fwd cum ss =>
+    let l := (sortBy (fun a b => a.1.toNat < b.1.toNat) ss).map fun e => s!"{e.1.toNat}/{e.2.toNat}"
+    s!"FWD:{cum.toNat}:" ++ (if l.isEmpty then "none" else "+".intercalate l)
+  | .ifwd cum ss =>
+    let l := (sortBy (fun a b => a.1.1.toNat < b.1.1.toNat || (a.1.1 == b.1.1 && !a.1.2 && b.1.2)) ss).map fun e =>
+      s!"{e.1.1.toNat}/{if e.1.2 then "u" else "o"}/{e.2.toNat}"
+    s!"IFWD:{cum.toNat}:" ++ (if l.isEmpty then "none" else "+".intercalate l)
+
 def stLine (st : St) : String :=
   let m := st.m
   let buf := m.penBytes + m.infBytes
@@ -121,11 +137,13 @@ def insertSorted (l : List Nat) (x : Nat) : List Nat :=
 def modelStep (st : St) (op impl : List String) : St × Option String :=
   let implS := " ".intercalate impl
   match op with
-  | "new" :: mtu :: _rcv :: minCwnd :: il :: tsn :: peerRwnd :: fastRtx :: caStep :: _ =>
+  | "new" :: mtu :: _rcv :: minCwnd :: il :: tsn :: peerRwnd :: fastRtx :: caStep :: rest =>
     let il := il == "1"
     let mtuB := bv32 mtu
+    -- optional token before the trailing pair number: 1 = the association uses I-FORWARD-TSN (useIForwardTSN) instead of FORWARD-TSN
+    let ifwd := rest.length ≥ 2 && rest.head? == some "1"
     let cfg : Sender.Cfg := { mtu := mtuB, minCwnd := bv32 minCwnd, fastRtxWnd := bv32 fastRtx, cwndCAStep := bv32 caStep,
-                              useInterleaving := il, maxPayload := Gen.maxPayloadSizeForMTU mtuB il }
+                              useInterleaving := il, maxPayload := Gen.maxPayloadSizeForMTU mtuB il, useIForwardTSN := ifwd }
     ({ st with m := Sender.init cfg (bv32 tsn) (bv32 peerRwnd), sis := [], ora := [] }, some s!"{mtuB.toNat} {cfg.maxPayload.toNat}")
   | ["open", si, u, rt, rv, th] =>
     let m := Sender.openStream st.m (BitVec.ofNat 16 (parseNat! si)) (u == "1") (BitVec.ofNat 8 (parseNat! rt)) (bv32 rv) (BitVec.ofNat 64 (parseNat! th))
@@ -143,9 +161,13 @@ def modelStep (st : St) (op impl : List String) : St × Option String :=
     let orc := Sender.tlrOracle (oraKey st.ora "tlr" == some "1") (((oraKey st.ora "bud").bind (·.toInt?)).getD 0)
     let (m, out) := Sender.gather st.m orc (natList (oraKey st.ora "sel"))
     let pred := out.packets.map (packetKey st.m.cfg.useInterleaving)
+    let predFwd := (out.fwd.map fwdStr).toList
     let st' := { st with m := m, ora := [] }
-    if pred == implDataPackets impl then (st', some implS)
-    else (st', some ("DATA packets: " ++ (if pred.isEmpty then "nothing" else " ; ".intercalate pred)))
+    if pred != implDataPackets impl then
+      (st', some ("DATA packets: " ++ (if pred.isEmpty then "nothing" else " ; ".intercalate pred)))
+    else if predFwd != implFwdTokens impl then
+      (st', some ("FORWARD-TSN: " ++ (if predFwd.isEmpty then "nothing" else " ".intercalate predFwd)))
+    else (st', some implS)
   | ["sack", cum, arw, gaps, _dups] =>
     let marks := (natList (oraKey st.ora "rtx")).map (BitVec.ofNat 32)
     let (m, r) := Sender.sack st.m (bv32 cum) (bv32 arw) (parseGapBlocks gaps) marks
